@@ -978,6 +978,11 @@ func (g *Gen) loopHead(fr *Frame, st *State, li *loopInfo) {
 			}
 		}
 	}
+	if eff.allocs || eff.allHeap {
+		nt := g.freshConst("top", "Int")
+		g.assume(st, sx(">=", nt, st.top))
+		st.top = nt
+	}
 	for k := range eff.cells {
 		v, ok := st.cells[k]
 		if !ok || v.Clo != nil || v.T == "" {
@@ -992,12 +997,9 @@ func (g *Gen) loopHead(fr *Frame, st *State, li *loopInfo) {
 		st.cells[k] = Val{T: nv}
 		if ty != nil {
 			g.assume(st, g.wf(nv, ty))
+			// whatever a variable holds at a loop head was allocated before: it is below the frontier
+			g.assume(st, g.allocatedIn(nv, ty, st.top, 0))
 		}
-	}
-	if eff.allocs || eff.allHeap {
-		nt := g.freshConst("top", "Int")
-		g.assume(st, sx(">=", nt, st.top))
-		st.top = nt
 	}
 	if eff.allHeap {
 		g.havocAllHeap(st, eff.heap)
